@@ -10,6 +10,7 @@ import (
 	"fmt"
 	"net"
 	"sort"
+	"sync"
 
 	apierrors "k8s.io/apimachinery/pkg/api/errors"
 	metav1 "k8s.io/apimachinery/pkg/apis/meta/v1"
@@ -27,6 +28,7 @@ import (
 var vfGR = schema.GroupResource{Group: "galaxy.k8s.io", Resource: "floatingips"}
 
 type VfStore struct {
+	Mu      sync.Mutex // guards Objs and the counters inside the fake's methods only (never held across a hook)
 	Objs    map[string]*v1alpha1.FloatingIP
 	Calls   int
 	FaultAt int    // the Calls-th API call fails cleanly (0 = no fault); symbolic
@@ -58,6 +60,8 @@ func (s *VfStore) fault(kind, name string) error {
 	if s.Only != "" && s.Only != kind {
 		return nil
 	}
+	s.Mu.Lock()
+	defer s.Mu.Unlock()
 	s.Calls++
 	if s.FaultAt == s.Calls {
 		s.Faulted = true
@@ -106,13 +110,18 @@ func (f *vfFIPs) Create(ctx context.Context, obj *v1alpha1.FloatingIP, opts meta
 	if err := f.Store.fault("create", obj.Name); err != nil {
 		return nil, err
 	}
-	if _, ok := f.Store.Objs[obj.Name]; ok {
+	f.Store.Mu.Lock()
+	_, ok := f.Store.Objs[obj.Name]
+	f.Store.Mu.Unlock()
+	if ok {
 		return nil, apierrors.NewAlreadyExists(vfGR, obj.Name)
 	}
 	if f.Store.Observe != nil {
 		f.Store.Observe("create", nil, obj)
 	}
+	f.Store.Mu.Lock()
 	f.Store.Objs[obj.Name] = vfCopy(obj)
+	f.Store.Mu.Unlock()
 	return vfCopy(obj), nil
 }
 
@@ -121,14 +130,18 @@ func (f *vfFIPs) Update(ctx context.Context, obj *v1alpha1.FloatingIP, opts meta
 	if err := f.Store.fault("update", obj.Name); err != nil {
 		return nil, err
 	}
+	f.Store.Mu.Lock()
 	old, ok := f.Store.Objs[obj.Name]
+	f.Store.Mu.Unlock()
 	if !ok {
 		return nil, apierrors.NewNotFound(vfGR, obj.Name)
 	}
 	if f.Store.Observe != nil {
 		f.Store.Observe("update", old, obj)
 	}
+	f.Store.Mu.Lock()
 	f.Store.Objs[obj.Name] = vfCopy(obj)
+	f.Store.Mu.Unlock()
 	return vfCopy(obj), nil
 }
 
@@ -137,14 +150,18 @@ func (f *vfFIPs) Delete(ctx context.Context, name string, opts metav1.DeleteOpti
 	if err := f.Store.fault("delete", name); err != nil {
 		return err
 	}
+	f.Store.Mu.Lock()
 	old, ok := f.Store.Objs[name]
+	f.Store.Mu.Unlock()
 	if !ok {
 		return apierrors.NewNotFound(vfGR, name)
 	}
 	if f.Store.Observe != nil {
 		f.Store.Observe("delete", old, nil)
 	}
+	f.Store.Mu.Lock()
 	delete(f.Store.Objs, name)
+	f.Store.Mu.Unlock()
 	return nil
 }
 
@@ -153,6 +170,8 @@ func (f *vfFIPs) Get(ctx context.Context, name string, opts metav1.GetOptions) (
 	if err := f.Store.fault("get", name); err != nil {
 		return nil, err
 	}
+	f.Store.Mu.Lock()
+	defer f.Store.Mu.Unlock()
 	obj, ok := f.Store.Objs[name]
 	if !ok {
 		return nil, apierrors.NewNotFound(vfGR, name)
@@ -165,6 +184,8 @@ func (f *vfFIPs) List(ctx context.Context, opts metav1.ListOptions) (*v1alpha1.F
 	if err := f.Store.fault("list", ""); err != nil {
 		return nil, err
 	}
+	f.Store.Mu.Lock()
+	defer f.Store.Mu.Unlock()
 	var names []string
 	for n := range f.Store.Objs {
 		names = append(names, n)
